@@ -71,6 +71,15 @@ def random_content(rng, endian, max_size=64, cstrings=True, aligned_len=None):
     if longs:
         pool = pool + [long_str(rng) for _ in range(2)]
         label_pool = label_pool + [long_str(rng)]
+    if rng.random() < 0.15:
+        # two different texts with the same 64-bit FxHash (gen/fxpairs.py), used often in this archive: pools or groupings keyed by
+        # a hash of the text instead of the text hand one string's bytes to the other (seeded change C18-10)
+        import fxpairs
+        x, y = rng.choice(fxpairs.ALL_PAIRS)
+        tail = rng.choice(["", "_cl0n"])
+        pair = [(x + tail).encode(), (y + tail).encode()]
+        pool = pool[:6] + pair * 4
+        label_pool = label_pool[:6] + pair * 2
     for c in cells:
         r = rng.random()
         if r < 0.3 * dense + 0.05:
